@@ -8,7 +8,8 @@ From Coq Require Import NArith ZArith List String Bool.
 From SV Require Import KV.KvBase KV.KvLex KV.KvParse KV.KvSym KV.KvRoundtrip.
 From SV Require Import Fmt.VmfText Fmt.VmfTextProofs Fmt.VmfBlocks Fmt.VmfBlocksProofs Fmt.VmfFields Fmt.VmfFieldsProofs.
 From SV Require Import Fmt.VmfNum Fmt.VmfNumProofs Fmt.VmfGuard Fmt.VmfGuardProofs.
-From SV Require Import Gen.VmfTemplates_gen Gen.VmfKeys_gen Gen.VmfDispSizes_gen Gen.VmfOrder_gen Gen.VmfProg_gen Gen.VmfFieldsCfg_gen Gen.VmfNumFmt_gen.
+From SV Require Import Fmt.VmfLite Fmt.VmfLiteProofs Fmt.VmfFlags Fmt.VmfFlagsProofs Fmt.VmfTok Fmt.VmfTokProofs.
+From SV Require Import Gen.VmfTemplates_gen Gen.VmfKeys_gen Gen.VmfDispSizes_gen Gen.VmfOrder_gen Gen.VmfProg_gen Gen.VmfFieldsCfg_gen Gen.VmfNumFmt_gen Gen.VmfLite_gen Gen.VmfFlags_gen.
 Import ListNotations.
 
 (** 1. Strings survive.  escape_text is inverted by the tokenizer's quoted-string scanner, for every string
@@ -230,3 +231,71 @@ Proof. exact unguarded_member_lost. Qed.
 Theorem c06_guard_on_other_member_refuted :
   exists vs, map (ex_get "blend") (parse_group _ (0, 0)%Z (List.length vs) (export_group _ ex_truthy "alpha" vs)) <> map (ex_get "blend") vs.
 Proof. exact guard_on_other_member_refuted. Qed.
+
+(** 10. The object level (round 3, "vmf_lite").  Gen/VmfLite_gen.v lists, per class of the object graph (Camera, Cordon,
+    VisGroup, EntityGroup, Solid, Side incl. dispinfo and point_data, Entity, VMF), the written lines with the attributes each
+    value is computed from, and the looked-up keys with the attributes each value flows into (data flow through locals,
+    containers and the constructor).  [lite_paired c]: every written literal key is looked up in the same block and flows into
+    exactly the attributes it was computed from; keys of one block are distinct.  [lite_attrs_written c]: every attribute the
+    reader fills is written.  For a paired class the text the reader finds under the key of a line is that line's text, it
+    is stored into the line's attributes only, a one-attribute line gives the attribute its value back when the field codec
+    inverts (the per-field theorems above), and changing the object elsewhere does not change what is found (no cross-talk).
+    [enc] is any function of the entry and of the values of its attributes. *)
+Theorem c06_lite_paired_meaning : forall c, lite_paired c = true ->
+  forall w, In w (lc_written c) -> le_dyn w = false -> le_attrs w <> [] ->
+  exists r, In r (lc_read c) /\ le_block r = le_block w /\ le_key r = le_key w /\ le_dyn r = false /\
+            forall a, In a (le_attrs w) <-> In a (le_attrs r).
+Proof. exact lite_paired_sound. Qed.
+Theorem c06_lite_scalar_roundtrip : forall (V T : Type) (enc : lentry -> list V -> T) c, lite_paired c = true ->
+  forall w a, In w (lc_written c) -> le_dyn w = false -> le_attrs w = [a] ->
+  exists r, In r (lc_read c) /\ le_dyn r = false /\ (forall a', In a' (le_attrs r) <-> a' = a) /\
+    forall (o : obj V) (dec : T -> V), (forall v, dec (enc w [v]) = v) ->
+      option_map dec (llookup T (le_block r) (le_key r) (export_lines V T enc c o)) = Some (o a).
+Proof. exact lite_scalar_roundtrip. Qed.
+Theorem c06_lite_no_crosstalk : forall (V T : Type) (enc : lentry -> list V -> T) c, lite_paired c = true ->
+  forall w, In w (lc_written c) -> le_dyn w = false ->
+  forall (o o' : obj V), (forall a, In a (le_attrs w) -> o a = o' a) ->
+    llookup T (le_block w) (le_key w) (export_lines V T enc c o) = llookup T (le_block w) (le_key w) (export_lines V T enc c o').
+Proof. exact lite_no_crosstalk. Qed.
+Theorem c06_lite_no_attribute_forgotten : forall c, lite_attrs_written c = true ->
+  forall a, (exists r, In r (lc_read c) /\ In a (le_attrs r)) \/ In a (lc_kids_read c) ->
+  (exists w, In w (lc_written c) /\ In a (le_attrs w)) \/ In a (lc_kids_written c).
+Proof. exact lite_attrs_written_sound. Qed.
+(** Swapped reader keys, a forgotten line, a key written twice in one block: each is rejected and does lose content. *)
+Theorem c06_lite_swapped_keys_refuted : lite_paired ex_swapped = false /\
+  exists r, find_entry "side" "uaxis" (lc_read ex_swapped) = Some r /\ le_attrs r = ["vaxis"]%string /\
+    forall o : obj nat, llookup nat "side" "uaxis" (export_lines nat nat ex_enc ex_swapped o) = Some (o "uaxis"%string).
+Proof. exact lite_swapped_refuted. Qed.
+Theorem c06_lite_forgotten_line_refuted : lite_paired ex_forgotten = true /\ lite_attrs_written ex_forgotten = false /\
+  forall o : obj nat, llookup nat "side" "vaxis" (export_lines nat nat ex_enc ex_forgotten o) = None.
+Proof. exact lite_forgotten_refuted. Qed.
+Theorem c06_lite_duplicate_key_refuted : lite_paired ex_duplicate = false /\
+  forall o : obj nat, llookup nat "side" "uaxis" (export_lines nat nat ex_enc ex_duplicate o) = Some (o "uaxis"%string).
+Proof. exact lite_duplicate_key_refuted. Qed.
+
+(** 11. Displacement flags (round 3).  Gen/VmfFlags_gen.v holds what the lines "flags" and "subdiv" contain for each of
+    the 16 values of DispFlag (the writer's two interpolated expressions, evaluated on every value), the table the reader
+    indexes with the number under "flags", and the bit it sets when "subdiv" is true.  If the generated objects pass
+    [flags_tables_ok], every flag value survives export and parse. *)
+Theorem c06_disp_flags_roundtrip : forall written t2c sub n, flags_tables_ok written t2c sub n = true ->
+  forall f, (N.to_nat f < n)%nat ->
+  exists p, flags_write written f = Some p /\ flags_read t2c sub p = Some f.
+Proof. exact flags_roundtrip. Qed.
+Theorem c06_disp_flags_not_inverse_refuted : flags_tables_ok ex_written_bad ex_t2c 8 8 = false /\
+  exists p, flags_write ex_written_bad 7 = Some p /\ flags_read ex_t2c 8 p = Some 6%N.
+Proof. exact flags_not_inverse_refuted. Qed.
+
+(** 12. The text of number groups (round 3).  Three number tokens (non-empty, no white space, no brackets: what number
+    formatting produces) joined by spaces, bare or wrapped in one pair of brackets of any of the four kinds -- how Vec and Angle
+    values are written by every line template -- are taken apart by math.parse_vec_str (strip, drop one bracket at each
+    end, split()) into the same three tokens; "[x y z offset] scale" is taken apart by UVAxis.parse (split(), lstrip('['),
+    rstrip(']')) into its five tokens in order.  The models parse_vec / uv_parse / uv_text / join_sp are tied to the code by
+    correspondence on every run. *)
+Theorem c06_vec_text_roundtrip : forall x y z o c, tok_ok x = true -> tok_ok y = true -> tok_ok z = true -> tk_wrap_ok o c = true ->
+  parse_vec (tk_wrap o c (vec_text x y z)) = Some (x, y, z).
+Proof. exact vec_text_roundtrip. Qed.
+Theorem c06_uvaxis_text_roundtrip : forall a b c d e, forallb tok_ok [a; b; c; d; e] = true ->
+  uv_parse (uv_text [a; b; c; d; e]) = Some [a; b; c; d; e].
+Proof. exact uv_text_roundtrip. Qed.
+Theorem c06_vec_token_with_space_refuted : parse_vec (vec_text [49; 32; 50] [51] [52])%N <> Some ([49; 32; 50], [51], [52])%N.
+Proof. exact vec_token_with_space_refuted. Qed.
